@@ -49,6 +49,18 @@ class Ctx:
                                      and len(self.samples) < 12):
             self.samples.append(desc)
 
+    def case_id(self, ident, nontrivial=True):
+        """Register a case identified by an integer that is unique per distinct case."""
+        self.evaluations += 1
+        if nontrivial:
+            self.hashes.add(int(ident))
+
+    def add_enumerated(self, n_eval, n_distinct_nontrivial):
+        """Bulk registration for exhaustive enumerations (every case distinct by construction and
+        enumerated exactly once over all shards)."""
+        self.evaluations += int(n_eval)
+        self.enum_distinct = getattr(self, "enum_distinct", 0) + int(n_distinct_nontrivial)
+
     def clause(self, name, n=1):
         self.clauses[name] = self.clauses.get(name, 0) + n
 
@@ -58,6 +70,16 @@ class Ctx:
     def bump(self, group, name, n=1):
         g = self.extra.setdefault(group, {})
         g[name] = g.get(name, 0) + n
+
+    def err(self, clause, e):
+        """Track the largest error seen per clause (evidence only)."""
+        g = self.extra.setdefault("max_err", {})
+        try:
+            e = float(e)
+        except Exception:
+            return
+        if e == e and e > g.get(clause, -1.0):
+            g[clause] = e
 
     def out_of_time(self):
         return time.time() - self.t0 > self.budget_s
@@ -80,7 +102,7 @@ class Ctx:
             "clauses": self.clauses, "classes": self.classes, "samples": self.samples[:12],
             "violations": self.violations, "viol_counts": self.viol_counts,
             "inconclusive": self.inconclusive, "extra": self.extra, "notes": self.notes,
-            "wall_s": time.time() - self.t0,
+            "wall_s": time.time() - self.t0, "enum_distinct": getattr(self, "enum_distinct", 0),
         }
 
 
